@@ -191,6 +191,22 @@ Theorem c09_mid_degrade : forall m, mstale m = true -> run_mid m = withdrawn.
 Proof. exact run_mid_stale. Qed.
 Print Assumptions c09_mid_degrade.
 
+(* --- strategy resolution (sloconfig.GetNodeColocationStrategy as modelled): the reclaim-ratio labels
+       win whatever the annotation is, and an annotation that does not parse changes nothing --- *)
+Theorem c09_resolve_label_precedence : forall s c,
+  nc_l_cpu_kind c = 1 -> nc_l_mem_kind c = 1 ->
+  s_cpu_reclaim (resolve_strategy s c) = ratio_label_pct (nc_l_cpu c) /\
+  s_mem_reclaim (resolve_strategy s c) = ratio_label_pct (nc_l_mem c).
+Proof. exact resolve_label_precedence. Qed.
+Print Assumptions c09_resolve_label_precedence.
+
+Theorem c09_resolve_bad_annotation_ignored : forall s c,
+  (nc_anno c =? 1) = false ->
+  resolve_strategy s c
+  = resolve_strategy s (mkNodeCfg 0 (-1) (-1) (-1) (-1) (nc_l_cpu_kind c) (nc_l_cpu c) (nc_l_mem_kind c) (nc_l_mem c)).
+Proof. exact resolve_bad_annotation_ignored. Qed.
+Print Assumptions c09_resolve_bad_annotation_ignored.
+
 (* --- non-vacuity --- *)
 Example c09_wf_inhabited : input_wf witness_request_sys = true.
 Proof. reflexivity. Qed.
